@@ -59,7 +59,55 @@ func c02Strings(alpha []string, L int) []string {
 	return out
 }
 
-func c02Job(id int, text, mode string, ms metaSetting, delivery string) harness.Job {
+// c02Contexts: the state and options around the typing. The statement is about printable text and
+// the accept key only, so it has to hold whatever optional feature watches the typing (suggestions,
+// automatic completion, bracket matching, highlighting, a mode indicator), on a terminal narrower
+// than the text, and in a later call on a Shell whose earlier call ended in any state.
+var c02Contexts = []string{"plain", "autosuggest", "autocomplete", "decorations", "narrow", "after-accepted-call", "after-interrupted-call", "after-vi-command-call", "after-pending-states"}
+
+func c02Context(cfg *harness.Config, ctx, mode string) {
+	switch ctx {
+	case "autosuggest":
+		cfg.RC += "set history-autosuggest on\n"
+		cfg.Hist = []harness.HistSpec{{Kind: "default", Lines: []string{"0 zero", "ab", "a b", "Z~x", "é中", "中a", "😀😀 x", "\"q\"", "aa", "a"}}}
+	case "autocomplete":
+		cfg.RC += "set autocomplete on\n"
+		cfg.Comps = &harness.CompSpec{ByWord: true, Items: []harness.Comp{{Value: "ab"}, {Value: "aZ"}, {Value: "a"}, {Value: "Zeta"}, {Value: "0x", Desc: "hex"}, {Value: "éa"}, {Value: "中文"}, {Value: "~user"}, {Value: "!bang"}, {Value: "(paren"}}}
+	case "decorations":
+		cfg.RC += "set blink-matching-paren on\nset show-mode-in-prompt on\nset colored-completion-prefix on\n"
+		cfg.Highlight = true
+		cfg.RPrompt = "R"
+		cfg.Prompt = "top\n$ "
+	case "narrow":
+		cfg.W, cfg.H = 4, 5
+		cfg.PreOutput = "o\r\n"
+	case "after-accepted-call":
+		cfg.PriorCalls = [][]harness.Answer{Keys("q", "w", "\r")}
+	case "after-interrupted-call":
+		if mode == "emacs" {
+			cfg.PriorCalls = [][]harness.Answer{Keys("q", "\x1b2", "\x03")}
+		} else {
+			cfg.PriorCalls = [][]harness.Answer{Keys("q", "\x03")}
+		}
+	case "after-vi-command-call":
+		// the earlier call went through (vi) command mode and back / (emacs) a lone ESC, then accepted
+		if mode == "emacs" {
+			cfg.PriorCalls = [][]harness.Answer{Keys("q", "w", "\x1b", "b", "\r")}
+		} else {
+			cfg.PriorCalls = [][]harness.Answer{Keys("q", "w", "\x1b", "0", "i", "\r")}
+		}
+	case "after-pending-states":
+		// the earlier call ends, by interrupt, with a mark set, a kill / yank made, a numeric argument
+		// and a keyboard macro being recorded (vi: back in insert mode)
+		if mode == "emacs" {
+			cfg.PriorCalls = [][]harness.Answer{Keys("q", "w", "\x00", "\x17", "\x18(", "e", "\x1b3", "\x03")}
+		} else {
+			cfg.PriorCalls = [][]harness.Answer{Keys("q", "w", "\x1b", "v", "y", "q", "a", "2", "i", "\x03")}
+		}
+	}
+}
+
+func c02Job(id int, text, mode string, ms metaSetting, delivery, ctx string) harness.Job {
 	var ans []harness.Answer
 	switch delivery {
 	case "chunk":
@@ -76,12 +124,9 @@ func c02Job(id int, text, mode string, ms metaSetting, delivery string) harness.
 		}
 	}
 	ans = append(ans, Key("\r"))
-	return harness.Job{
-		ID:    id,
-		Cfg:   harness.Config{RC: modeRC(mode) + ms.rc, W: 80, H: 24, Prompt: "> "},
-		Calls: [][]harness.Answer{ans},
-		Want:  harness.Want{Obs: 2},
-	}
+	cfg := harness.Config{RC: modeRC(mode) + ms.rc, W: 80, H: 24, Prompt: "> "}
+	c02Context(&cfg, ctx, mode)
+	return harness.Job{ID: id, Cfg: cfg, Calls: [][]harness.Answer{ans}, Want: harness.Want{Obs: 2}}
 }
 
 func c02Classify(text string) string {
@@ -112,12 +157,32 @@ func c02Classify(text string) string {
 }
 
 // c02Verdict returns "" when the trace satisfies the oracle, else a fingerprint.
-func c02Verdict(t *harness.Trace, text, mode string, ms metaSetting, delivery string) (fp, what string) {
+func c02Verdict(t *harness.Trace, text, mode string, ms metaSetting, delivery, ctx string) (fp, what string) {
+	fp, what = c02Verdict0(t, text, mode, ms, delivery, ctx)
+	if fp != "" && ctx != "plain" && ctx != "" {
+		fp += "/" + ctx
+	}
+	return
+}
+
+func c02Verdict0(t *harness.Trace, text, mode string, ms metaSetting, delivery, ctx string) (fp, what string) {
 	if t.Err != "" {
 		return "", ""
 	}
 	c := LastCall(t)
-	in := fmt.Sprintf("text=%q mode=%s meta=%s delivery=%s", text, mode, ms.name, delivery)
+	in := fmt.Sprintf("text=%q mode=%s meta=%s delivery=%s context=%s", text, mode, ms.name, delivery, ctx)
+	// The statement speaks of Emacs mode and Vi *insert* mode. The library keeps the main keymap of
+	// the previous call (a call that was accepted from vi command mode is followed by a call that
+	// starts in command mode), so a call that does not start in the mode named is not judged.
+	if len(c.Waits) > 0 && c.Waits[0].Obs != nil {
+		want := "emacs"
+		if mode != "emacs" {
+			want = "vi-insert"
+		}
+		if c.Waits[0].Obs.Main != want {
+			return "", "not judged: the call starts in keymap " + c.Waits[0].Obs.Main
+		}
+	}
 	_ = c02Classify
 	switch c.Outcome {
 	case "returned":
@@ -179,7 +244,7 @@ func isSubsequence(a, b string) bool {
 func init() {
 	Register(&Check{ID: "C02", Level: "exploration", Run: runC02, Replay: func(c *Ctx, w *Witness) (string, string) {
 		var in struct {
-			Text, Mode, Meta, Delivery string
+			Text, Mode, Meta, Delivery, Context string
 		}
 		jsonUnmarshal(w.Input, &in)
 		var ms metaSetting
@@ -189,7 +254,7 @@ func init() {
 			}
 		}
 		t := c.Pool.RunOne(w.Job)
-		fp, what := c02Verdict(t, in.Text, in.Mode, ms, in.Delivery)
+		fp, what := c02Verdict(t, in.Text, in.Mode, ms, in.Delivery, in.Context)
 		return fmt.Sprintf("trace: %s\n%s", jsonString(t), what), fp
 	}})
 }
@@ -212,13 +277,13 @@ func runC02(c *Ctx) {
 			texts = append(texts, string(r), "x"+string(r)+"y")
 		}
 	}
-	c.Rule = fmt.Sprintf("all strings of length <= %d over %d runes %q x {emacs,vi-insert} x 3 meta settings x {one chunk, one rune per read, one BYTE per read (non-ASCII)} + Enter; oracle applied to ASCII-only strings under every setting and to non-ASCII strings under convert-meta off; non-trivial = distinct non-empty typed string for which the oracle applied", L, len(c02Alphabet), c02Alphabet)
-	c.Bounds = map[string]any{"max_len": L, "alphabet": c02Alphabet, "modes": []string{"emacs", "vi-insert"}, "meta": []string{"default", "convert-meta-off", "utf8-usual"}, "delivery": []string{"chunk", "rune", "byte"}}
+	c.Rule = fmt.Sprintf("all strings of length <= %d over %d runes %q x {emacs,vi-insert} x 3 meta settings x {one chunk, one rune per read, one BYTE per read (non-ASCII)} x %d contexts %q (optional features watching the typing, a terminal narrower than the text, a later call on a Shell whose earlier call ended accepted / interrupted / in vi command mode / with pending states) + Enter; oracle applied to ASCII-only strings under every setting and to non-ASCII strings under convert-meta off; non-trivial = distinct non-empty typed string for which the oracle applied", L, len(c02Alphabet), c02Alphabet, len(c02Contexts), c02Contexts)
+	c.Bounds = map[string]any{"max_len": L, "alphabet": c02Alphabet, "modes": []string{"emacs", "vi-insert"}, "meta": []string{"default", "convert-meta-off", "utf8-usual"}, "delivery": []string{"chunk", "rune", "byte"}, "contexts": c02Contexts}
 	c.Assumptions = []string{"non-ASCII oracle scoped to convert-meta off as the statement says"}
 
 	type meta struct {
-		text, mode, delivery string
-		ms                   metaSetting
+		text, mode, delivery, ctx string
+		ms                        metaSetting
 	}
 	var jobs []harness.Job
 	var metas []meta
@@ -241,8 +306,13 @@ func runC02(c *Ctx) {
 					if d == "byte" && isASCII(text) {
 						continue // same as "rune"
 					}
-					jobs = append(jobs, c02Job(len(jobs), text, mode, ms, d))
-					metas = append(metas, meta{text, mode, d, ms})
+					for _, ctx := range c02Contexts {
+						if ctx != "plain" && (d == "byte" || ms.name == "convert-meta-off") {
+							continue // contexts: whole-chunk and per-rune deliveries under the default and the usual UTF-8 settings
+						}
+						jobs = append(jobs, c02Job(len(jobs), text, mode, ms, d, ctx))
+						metas = append(metas, meta{text, mode, d, ctx, ms})
+					}
 				}
 			}
 		}
@@ -258,11 +328,15 @@ func runC02(c *Ctx) {
 			c.NonTrivial(m.text)
 		}
 		if c.Evaluations%997 == 1 {
-			c.Sample(map[string]any{"typed": m.text, "mode": m.mode, "meta": m.ms.name, "delivery": m.delivery, "returned": LastCall(t).Line})
+			c.Sample(map[string]any{"typed": m.text, "mode": m.mode, "meta": m.ms.name, "delivery": m.delivery, "context": m.ctx, "returned": LastCall(t).Line})
 		}
-		fp, what := c02Verdict(t, m.text, m.mode, m.ms, m.delivery)
+		fp, what := c02Verdict(t, m.text, m.mode, m.ms, m.delivery, m.ctx)
+		if fp == "" && strings.HasPrefix(what, "not judged") {
+			c.Outcome(what + "/" + m.ctx)
+			return
+		}
 		if fp == "" {
-			c.Outcome("ok/" + c02Classify(m.text))
+			c.Outcome("ok/" + c02Classify(m.text) + "/" + m.ctx)
 			return
 		}
 		c.Outcome(fp)
@@ -272,11 +346,11 @@ func runC02(c *Ctx) {
 		}
 		jj := *j
 		w := Witness{Fingerprint: fp, What: what, Engine: "session", Job: &jj,
-			Input:    jsonRaw(map[string]string{"Text": m.text, "Mode": m.mode, "Meta": m.ms.name, "Delivery": m.delivery}),
+			Input:    jsonRaw(map[string]string{"Text": m.text, "Mode": m.mode, "Meta": m.ms.name, "Delivery": m.delivery, "Context": m.ctx}),
 			Expected: fmt.Sprintf("%q", m.text), Observed: fmt.Sprintf("%q err=%q outcome=%s", LastCall(t).Line, LastCall(t).Err, LastCall(t).Outcome)}
 		c.Violate(w, func() string {
 			t2 := c.Pool.RunOne(&jj)
-			f, _ := c02Verdict(t2, m.text, m.mode, m.ms, m.delivery)
+			f, _ := c02Verdict(t2, m.text, m.mode, m.ms, m.delivery, m.ctx)
 			return f
 		})
 	})
